@@ -33,3 +33,44 @@ for p in paths[:int(os.environ.get('NP', '3'))]:
 print(len(paths), 'paths')
 case.symbolic = False
 print(harness.concrete_check(case, shape, env={}))
+# locate first differing sub-term
+if os.environ.get('DIFF'):
+    io, so = paths[0].value
+    a = [core.to_n(x, 8) for x in io[1]] if isinstance(io[1], (core.SymBytes, bytes)) else None
+    b = [core.to_n(x, 8) for x in so[1]]
+    def diff(x, y, depth=0):
+        if x is y: return False
+        cx, cy = ir.children(x), ir.children(y)
+        if x.k != y.k or x.w != y.w or len(cx) != len(cy):
+            print('  ' * depth, 'DIFF', ir.describe(x, 3), '|||', ir.describe(y, 3)); return True
+        for i, j in zip(cx, cy):
+            if i != j:
+                if diff(ir.node(i), ir.node(j), depth + 1): return True
+        print('  ' * depth, 'DIFF(attrs)', x, x.a if x.k != 'cat' else x.a[:6], '|||', y, y.a if y.k != 'cat' else y.a[:6]); return True
+    for x, y in zip(a, b):
+        if x is not y:
+            diff(x, y); break
+if os.environ.get('DIFF2'):
+    io, so = paths[0].value
+    x = core.to_n(io[1][0], 8); y = core.to_n(so[1][0], 8)
+    def top(n):
+        while n.k == 'cat':
+            n = ir.node([s for s in n.a if s[0] != 'c'][0][0])
+        return n
+    def dd(x, y, depth=0):
+        x, y = top(x), top(y)
+        if x is y or depth > 6: return
+        print('  '*depth, x, len(ir.children(x)), y, len(ir.children(y)), 'const', x.a[1] if x.k in ('add','xor','and','or') else '', y.a[1] if y.k in ('add','xor','and','or') else '')
+        sx, sy = set(ir.children(x)), set(ir.children(y))
+        ox, oy = sorted(sx - sy), sorted(sy - sx)
+        for i in ox: print('  '*depth, '  only impl:', ir.describe(ir.node(i), 2), dict(x.a[0]).get(i) if x.k=='add' else '')
+        for i in oy: print('  '*depth, '  only spec:', ir.describe(ir.node(i), 2), dict(y.a[0]).get(i) if y.k=='add' else '')
+        if len(ox) == 1 and len(oy) == 1: dd(ir.node(ox[0]), ir.node(oy[0]), depth + 1)
+    dd(x, y)
+if os.environ.get('SHOW'):
+    n = ir.node(int(os.environ['SHOW']))
+    def sh(n, d=0):
+        print('  '*d, n, n.a if n.k in ('cat','const','var') else '')
+        if d < int(os.environ.get('DEPTH','2')):
+            for c in ir.children(n): sh(ir.node(c), d+1)
+    sh(n)
